@@ -119,7 +119,11 @@ class CollectFootnotes(Transform):
             footnotes
             and self.document.settings.myst_footnote_transition
             # avoid warning: Document or section may not begin with a transition
-            and not all(isinstance(c, nodes.footnote) for c in self.document.children)
+            # (system messages are not content: they are removed when suppressed, or by sphinx)
+            and not all(
+                isinstance(c, (nodes.footnote, nodes.system_message))
+                for c in self.document.children
+            )
         ):
             transition = nodes.transition(classes=["footnotes"])
             transition.source = self.document.source
